@@ -53,6 +53,8 @@ class Result:
             self.faults['thread_stall'] = self.faults.get('thread_stall', 0) + w.k.stalls
         self.sched = w.k.sched_sig.hexdigest()[:16]
         self.threads = max(self.threads, w.k.max_threads)
+        if w.k.handler_errors:
+            raise HarnessError("simulated peer / event handler raised: " + w.k.handler_errors[0])
         if w.k.abort_reason not in (None, "end"):
             self.info["abort"] = w.k.abort_reason
         if _os.environ.get("VERIF_KEEP_LOG"):
